@@ -199,6 +199,9 @@ def check_equations(text, H, model_exe):
 
 # --------------------------------------------------------------------------- head formulas (C04)
 
+MAX_SHIFTED_CHARS = 4000
+MAX_CLAUSE_LITERALS = 4000
+
 def head_probe(text, dmax):
     """
     Ground step 0 of the program and, for every `&__tel_head` atom, build the real head formula with the
@@ -224,8 +227,12 @@ def head_probe(text, dmax):
         per = []
         for d in range(dmax + 1):
             sf = hd.shift_formula(f, d)
+            if len(str(sf)) > MAX_SHIFTED_CHARS:
+                break             # the unfolding of nested until/release grows exponentially with the shift: compare the shifts that stay small
             cl = [[str(x) for x in c] for c in hd.unfold_formula(sf)]
             per.append((str(sf), cl))
+            if sum(len(c) for c in cl) > MAX_CLAUSE_LITERALS:
+                break
         out.append((tl.dump_tterm(t), str(f), per))
     return out
 
@@ -242,7 +249,8 @@ def check_head(texts, dmax, model_exe):
             if isinstance(e, KeyboardInterrupt):
                 raise
             dis.append({"layer": "L3h", "text": text, "what": "exception while probing: {}: {}".format(tl.classify_exc(e), str(e)[:200])})
-    outs = model_exe.batch([tl.sexp(("head", p[0], dmax)) for _, p in probes])
+    # the model is asked for exactly the shifts the probe kept (see the size caps in head_probe)
+    outs = model_exe.batch([tl.sexp(("head", p[0], max(0, len(p[2]) - 1))) for _, p in probes])
     for (text, (term, rep, per)), out in zip(probes, outs):
         n += 1
         if out.startswith("ERR"):
